@@ -96,12 +96,12 @@ def plan(pid, tier, seed, fx):
     jobs = []
     if pid in ("C17", "C18"):
         fixtures = SYNC_FIX + ASYNC_FIX
-        nprog = 500 if thorough else 30
+        nprog = 200 if thorough else 30
         for f in fixtures:
             A = alphabet(fx, f, with_stats=(pid == "C17"))
             for pre in prefixes(fx, f):
                 jobs.append({"fixtures": [f], "prefix": pre, "programs": programs(rng, A, 2, 2, nprog),
-                             "strategy": {"kind": "dfs", "max_schedules": 400 if thorough else 30, "preempt": 3 if thorough else 2},
+                             "strategy": {"kind": "dfs", "max_schedules": 200 if thorough else 30, "preempt": 3 if thorough else 2},
                              "probe": probe_for(fx, f) if pid == "C18" else [], "hang_ms": 20000})
             # same-key races, exhaustively over a small alphabet (both threads hit the same entries)
             cn = fx[f]["cache_name"]
@@ -123,11 +123,11 @@ def plan(pid, tier, seed, fx):
                              "strategy": {"kind": "dfs", "max_schedules": 200 if thorough else 50, "preempt": 2},
                              "probe": probe_for(fx, f) if pid == "C18" else [], "hang_ms": 20000})
             if thorough:
-                jobs.append({"fixtures": [f], "prefix": prefixes(fx, f)[1], "programs": programs(rng, A, 3, 2, 300),
-                             "strategy": {"kind": "dfs", "max_schedules": 400, "preempt": 2},
+                jobs.append({"fixtures": [f], "prefix": prefixes(fx, f)[1], "programs": programs(rng, A, 3, 2, 100),
+                             "strategy": {"kind": "dfs", "max_schedules": 200, "preempt": 2},
                              "probe": probe_for(fx, f) if pid == "C18" else [], "hang_ms": 20000})
             jobs.append({"fixtures": [f], "prefix": prefixes(fx, f)[-1], "programs": programs(rng, A, 3 if thorough else 2, 3, 25 if thorough else 8),
-                         "strategy": {"kind": "random", "max_schedules": 2000 if thorough else 40, "seed": seed},
+                         "strategy": {"kind": "random", "max_schedules": 800 if thorough else 40, "seed": seed},
                          "probe": probe_for(fx, f) if pid == "C18" else [], "hang_ms": 20000})
         # several functions at once: group invalidations walk more than one cache (sync and async mixed),
         # calls on one function race with an invalidation that reaches it through another's tag / event
@@ -148,8 +148,8 @@ def plan(pid, tier, seed, fx):
                 for f in group:
                     probe += [call(f, 7), call(f, 8), call(f, 9), call(f, 1), call(f, 7)]
                 probe += [{"op": "inv_tag", "x": tg[0]}] + [call(f, 7) for f in group]
-            jobs.append({"fixtures": group, "prefix": pre, "programs": programs(rng, A, 2, 2, 400 if thorough else 40),
-                         "strategy": {"kind": "dfs", "max_schedules": 300 if thorough else 30, "preempt": 2},
+            jobs.append({"fixtures": group, "prefix": pre, "programs": programs(rng, A, 2, 2, 200 if thorough else 40),
+                         "strategy": {"kind": "dfs", "max_schedules": 150 if thorough else 30, "preempt": 2},
                          "probe": probe, "hang_ms": 20000})
             jobs.append({"fixtures": group, "prefix": pre, "programs": programs(rng, A, 3, 2, 60 if thorough else 6),
                          "strategy": {"kind": "random", "max_schedules": 500 if thorough else 30, "seed": seed},
@@ -209,7 +209,7 @@ def run_cold(pid, tier, seed, wd, all_tr, jobs_by_tag):
     fx = load_fixtures()
     thorough = tier == "thorough"
     progs = cold_programs(fx, thorough)
-    max_s = 3000 if thorough else 300
+    max_s = 1000 if thorough else 300
     tot = {"programs": len(progs), "schedules": 0, "deadlocks": 0}
     cdir = os.path.join(wd, "cold")
     os.makedirs(cdir, exist_ok=True)
